@@ -216,6 +216,10 @@ class C13(core.Prop):
             for a in brack:
                 for form in ANN_FORMS:
                     out.append({'skel': sk, 'ins': [[['atom', a], [[1, 's']]]], 'ann': {str(a): form}})
+        # the same annotation form on two bracket atoms (identically spelled annotations: caches, shared defaults)
+        for sk in ('[CH2]O[CH2]', '[#TC4][#OT1][#CD1]'):
+            for form in ANN_FORMS:
+                out.append({'skel': sk, 'ins': [[['atom', 0], [[1, 's']]]], 'ann': {'0': form, '2': form}})
         out.append({'skel': 'CCO', 'ins': [], 'ann': {}})
         # raw strings (no skeleton): every string of length <= L over RAW_ALPHABET, split by the first two characters
         L = 4 if tier == 'quick' else 6
